@@ -1253,3 +1253,37 @@ Proof.
   unfold step, lb_continue, lb_ret, next_ret.
   destruct (pc (thr s u)); cbv zeta; dmatch; reflexivity.
 Qed.
+
+Lemma finish_startpc t T c v : startpc (pc (snd (finish t T c v))).
+Proof.
+  unfold finish.
+  assert (G : forall p k, startpc (pc (snd (start t c p k)))).
+  { induction p as [|o r IH]; intros k; cbn [start]; [exact I|].
+    assert (Hrec : forall e0 : list Z, startpc (pc (snd (let '(e, T) := start t c r (S k) in (e0 ++ e, T))))).
+    { intros e0. specialize (IH (S k)). destruct (start t c r (S k)); exact IH. }
+    destruct o; try (destruct (bad_id f)); try (destruct (Nat.eqb c 0)); try apply Hrec; exact I. }
+  specialize (G (prog T) (S (opi T))). destruct (start t c (prog T) (S (opi T))). exact G.
+Qed.
+
+(* load_balance's scan from the state S0: either nothing is stolen (the call
+   continues at a pc that is not PL2), or exactly one fiber x is taken from the
+   far end of a deque dv of another thread and the thief is at PL2 .. x *)
+Lemma lb_effect (S0 : st) u T k i lc ms rc : u < nthr S0 -> 2 * (u + 1) <= i ->
+  let s' := fst (lb_continue S0 u T k i lc ms rc) in
+  ((forall d, dq s' d = dq S0 d) /\ (forall k' i' a b c x, pc (thr s' u) <> PL2 k' i' a b c x)) \/
+  (exists dv x l i' a b c, dq S0 dv = l ++ [x] /\ dq s' = upd (dq S0) dv l /\
+     pc (thr s' u) = PL2 k i' a b c x /\ 1 <= dv <= 2 * nthr S0 /\ dv <> 2 * u + 1 /\ dv <> 2 * u + 2).
+Proof.
+  intros Hu Hi. unfold lb_continue. cbv zeta.
+  destruct (lb_scan _ _ _ _ _ _ _ _) as [dqs r] eqn:ES. apply lb_scan_spec in ES.
+  destruct ES as [[-> ->]|(i' & lc' & rc' & ms' & x & l & -> & Hi' & Hdv & ->)].
+  - left. unfold lb_ret. destruct k;
+      try match goal with |- context [finish ?a ?b ?c ?d] =>
+            pose proof (finish_startpc a b c d) as B; destruct (finish a b c d) as [e1 T1]; cbn [snd] in B end;
+      cbn [fst dq thr set_thr]; rewrite upd_same; (split; [reflexivity|]);
+      intros k' j a b c x E; try (rewrite E in B; exact B); discriminate.
+  - right. assert (Hr : 2 * (u + 1) <= i' < lb_iend u (nthr S0)) by lia.
+    destruct (scan_deque u (nthr S0) i' Hu Hr) as (D1 & D2 & D3).
+    exists (qid (i' mod (2 * nthr S0))), x, l, i', lc', rc', ms'. cbn [fst dq thr set_thr]. rewrite upd_same.
+    repeat split; auto; lia.
+Qed.
